@@ -233,6 +233,25 @@ OddIndexCases(shapes) ==
                       {<<0 - 1, 0>>, <<0 - n, n - 1>>, <<0 - 1, 0 - 1>>, <<0, 0, 0>>, <<n>>, <<0, 0 - n - 1>>, <<n + 1, 0>>}}
          ELSE {}
          : sh \in shapes, ax \in (0 - 2)..1}
+\* array (op) PYTHON SCALAR, scalar on either side, over dtypes bool, int8, uint8, float32, float64 (kind "sbin":
+\* idx = <<num, den>> of the scalar, parts = <<kind: 0 bool / 1 int / 2 float, position: 0 array op scalar / 1 scalar op array>>).
+\* What NumPy (2.x, NEP 50) gives for `array <op> python_scalar`: the scalar is WEAK - it does not widen the array's
+\* dtype within its kind; a bool scalar never changes it, an int scalar turns bool into the default integer, a float
+\* scalar turns bool/integers into float64; true division of bool/integers gives float64.  Integer results wrap
+\* modulo 2^8 in int8/uint8.  Left out: bool array with a bool scalar (logical operators), int scalars that do not fit
+\* the dtype (OverflowError), irrational powers, results float32 cannot hold exactly, and pow on bool arrays (NumPy's
+\* operator shortcut for exponent 2 squares in int8 where np.power, which the xarray backend calls, gives int64).
+SDtypes == {"bool", "int8", "uint8", "float32", "float64"}
+SPoolA(dt) == CASE dt = "bool" -> <<1, 0, 1, 1>> [] dt = "int8" -> <<120, 0 - 128, 2, 1>> [] dt = "uint8" -> <<250, 2, 0, 1>> [] OTHER -> <<120, 2, 0, 1>>
+SPoolP(dt) == IF dt = "bool" THEN <<1, 1, 1, 1>> ELSE <<8, 2, 1, 4>>          \* divisors / exponents
+SScalars == {<<1, 1, 0>>, <<2, 1, 1>>, <<9, 1, 1>>, <<1, 2, 2>>, <<2, 1, 2>>}     \* <<num, den, kind>>: True, 2, 9, 0.5, 2.0
+ScalarCases ==
+  {CD("sbin", op, <<[shape |-> sh, data |-> IF pos = 1 /\ op \in {"divide", "pow"} THEN SPoolP(dt) ELSE SPoolA(dt)]>>,
+      0, <<sc[1], sc[2]>>, <<sc[3], pos>>, dt)
+   : <<op, dt, sc, pos, sh>> \in {x \in {"add", "subtract", "multiply", "divide", "pow"} \X SDtypes \X SScalars \X {0, 1} \X {<<4>>, <<2, 2>>} :
+        /\ ~(x[2] = "bool" /\ x[3][3] = 0)
+        /\ (x[1] \in {"divide", "pow"} => x[3][1] # 9)
+        /\ (x[1] = "pow" => x[3][2] = 1 /\ x[2] # "bool")}}
 NarrowCases(top) ==          \* (a parameter so that TLC does not evaluate it when it starts)
        {CD("multi", f, t, 0, <<>>, <<>>, "bool") : <<f, t>> \in UNION {NarrowOps \X Tuples(BoolPool(sh), n) : <<sh, n>> \in BoolShapes \X (2..top)}}
   \cup {CD("multi", f, t, 0, <<>>, <<>>, "i1") : <<f, t>> \in UNION {NarrowOps \X Tuples(I1Pool(sh), n) : <<sh, n>> \in I1Shapes \X (2..top)}}
@@ -272,6 +291,7 @@ Cases(maxArgs) ==
   \cup NegAxisCases(maxArgs)
   \cup MixedRankCases(3)
   \cup OddIndexCases(Shapes)
+  \cup (IF maxArgs > 0 THEN ScalarCases ELSE {})
 
 \* TLC evaluates every constant definition of a module when it starts, so each pass is guarded by IOEnv.PASS
 Generate == IOEnv.PASS = "generate" => (LET cs == SetToSeq(Cases(MaxArgs)) IN JsonSerialize(IOEnv.CASES_FILE, [i \in 1..Len(cs) |-> cs[i]]))
@@ -286,6 +306,18 @@ BArgs(args) == [i \in DOMAIN args |-> BroadcastTo(args[i], BShapeOf(args))]
 BKinds == {"bstack", "bmulti", "bbin"}
 \* NumPy indexing: a negative index counts from the end; outside -n..n-1 the call raises IndexError (-1 here, see Post)
 NormIndex(i, n) == IF i >= n \/ i < 0 - n THEN 0 - 1 ELSE IF i < 0 THEN i + n ELSE i
+\* result dtype and value of array (op) python scalar (see ScalarCases)
+ScalarDtype(op, dt, kind) ==
+  LET base == CASE kind = 0 -> dt
+                [] kind = 1 -> (IF dt = "bool" THEN "int64" ELSE dt)
+                [] kind = 2 -> (IF dt \in {"float32", "float64"} THEN dt ELSE "float64")
+  IN IF op = "divide" /\ base \notin {"float32", "float64"} THEN "float64" ELSE base
+WrapU8(q) == IF q = Undef \/ q[2] # 1 THEN Undef ELSE QI(q[1] % 256)
+WrapTo(a, rdt) == IF IsErr(a) \/ rdt \notin {"int8", "uint8"} THEN a
+                  ELSE [a EXCEPT !.data = [i \in DOMAIN a.data |-> IF rdt = "int8" THEN Wrap8(a.data[i]) ELSE WrapU8(a.data[i])]]
+ScalarSpec(c, a) == LET sc == Scalar(Q(c.idx[1], c.idx[2]))
+                        r == IF c.parts[2] = 0 THEN Binary(c.op, a[1], sc) ELSE Binary(c.op, sc, a[1])
+                    IN WrapTo(r, ScalarDtype(c.op, c.dt, c.parts[1]))
 NormAxis(ax, rank) == IF ax < 0 THEN ax + rank ELSE ax            \* NumPy: a negative axis counts from the end
 Spec(c) == LET a == ArgsOf(c)
                ax == NormAxis(c.axis, Len(a[1].shape) + (IF c.k = "stack" THEN 1 ELSE 0)) IN
@@ -299,6 +331,7 @@ Spec(c) == LET a == ArgsOf(c)
                         IN IF \E j \in DOMAIN is : is[j] < 0 THEN Err ELSE TakeSeq(a[1], is, ax)
     [] c.k = "bin" -> IF c.dt = "i1" THEN WrapArr8(Binary(c.op, a[1], a[2])) ELSE Binary(c.op, a[1], a[2])
     [] c.k = "batched" -> Apply(c.op, a, c.axis)
+    [] c.k = "sbin" -> ScalarSpec(c, a)
     [] c.k = "bstack" -> Stack(BArgs(a), NormAxis(c.axis, Len(BShapeOf(a)) + 1))
     [] c.k = "bmulti" -> MultiN(c.op, BArgs(a))
     [] c.k = "bbin" -> Binary(c.op, BArgs(a)[1], BArgs(a)[2])
@@ -334,8 +367,9 @@ PostOne(c, res, be, marked) ==
                IF got.shape # want.shape THEN n("shape_differs")
                ELSE IF got.data # want.data THEN n("value_differs") ELSE {}
      ELSE LET got == ImplArr(res) IN
-          IF got.shape # want.shape THEN n("shape_differs")
-          ELSE IF got.data # want.data THEN n("value_differs") ELSE {}
+          (IF c.k = "sbin" /\ res.dtype # ScalarDtype(c.op, c.dt, c.parts[1]) THEN n("dtype_differs") ELSE {})
+          \cup (IF got.shape # want.shape THEN n("shape_differs")
+                ELSE IF got.data # want.data THEN n("value_differs") ELSE {})
 Post(c, r, marked) == PostOne(c, r.np, "np", marked) \cup PostOne(c, r.xr, "xr", marked)
 
 Judge == IOEnv.PASS = "judge" =>
